@@ -17,6 +17,7 @@ use super::publog::dummy_conductor;
 use super::util::*;
 use crate::concurrent::atomic_buffer::AtomicBuffer;
 use crate::concurrent::logbuffer::header::Header;
+use crate::concurrent::logbuffer::term_reader::ErrorHandler;
 use crate::concurrent::position::UnsafeBufferPosition;
 use crate::fragment_assembler::FragmentAssembler;
 use crate::image::{ControlledPollAction, Image};
@@ -32,6 +33,12 @@ const STREAM: i32 = 1001;
 const TERM_ID: i32 = 77;
 const SID_A: i32 = 5;
 const SID_B: i32 = 9;
+
+/// Every key hashes to the same constant: a legal (if poor) hash function. The map then tells sessions apart by key
+/// equality alone, and the SipHash rounds (rotates are not constant-folded by CBMC) stay out of the formula.
+fn fixed_finish(_h: &std::hash::DefaultHasher) -> u64 {
+    0x517c_c1b7_2722_0a95
+}
 
 fn fixed_random_state() -> std::hash::RandomState {
     unsafe { std::mem::transmute::<[u64; 2], std::hash::RandomState>([1, 2]) }
@@ -390,11 +397,12 @@ fn assembler_two_sessions(init: Option<isize>) -> TwoOut {
     TwoOut { delivered: want.calls, a_len, b_len, interleaved, b_joined_mid: fb[0] & 0x80 == 0 }
 }
 
-// @verif tier=quick unwind=10 unwindset=dealloc_buffer_aligned:100
+// @verif tier=quick unwind=10 unwindset=simd_bitmask_impl:17,find_inner:3,find_insert_index:3,find_suitable_capacity:5
 #[kani::proof]
 #[kani::stub(std::hash::RandomState::new, fixed_random_state)]
+#[kani::stub(<std::hash::DefaultHasher as std::hash::Hasher>::finish, fixed_finish)]
 fn c20_assembler_two_sessions_interleaved() {
-    let o = assembler_two_sessions(Some(64));
+    let o = assembler_two_sessions(None);
     kani::cover!(o.interleaved && o.delivered == 2 && o.a_len == 71 && o.b_len == 41, "[must] both multi-fragment messages reassembled from a true interleaving");
     kani::cover!(o.b_joined_mid && o.b_len < 0 && o.a_len == 71, "[must] session joined mid-message yields nothing while the other session is reassembled");
     kani::cover!(o.b_joined_mid && o.b_len == 9, "[must] mid-message join ignored, that session's next message start is delivered");
@@ -403,18 +411,31 @@ fn c20_assembler_two_sessions_interleaved() {
 // ---------------------------------------------------------------------------------------------------------------
 // C: Subscription::poll / controlled_poll over several images
 // ---------------------------------------------------------------------------------------------------------------
+//
+// What CBMC's symbolic execution can and cannot see decides the construction (all measured):
+// * `Subscription::add_image` keeps the images in a heap `Vec<Image>`; nothing read back from a heap block larger than
+//   64 bytes is constant-propagated, so every pointer inside an image (term buffers, position counter, vtable of the
+//   boxed error handler) becomes an expression only the solver can evaluate. Dropping such an image (add_image and
+//   remove_image drop the previous list) dispatches the boxed handler's drop over every drop glue of the binary with
+//   garbage operands. One poll over two such images: 1 M SSA steps, solver out of memory at 14 GB.
+// * `inject` therefore places the images in a typed `[Image; N]` local of the harness and points the subscription's
+//   (empty) `Vec<Image>` at it. The subscription, its rotation index and the poll code are the real ones; only the
+//   storage of the list differs from what `add_image` would allocate. Every access then has a literal address as long
+//   as the starting image and the frame length words are literals on the path: `split!` case-splits the solver-chosen
+//   rotation state and backlog so that each leaf runs on literals (limit, ids stay symbolic inside the leaf).
+// * The real `add_image` / `remove_image` are exercised on top of an injected list in the `c20_poll_*_image_*`
+//   harnesses (one list mutation each: the images dropped are the transparent originals).
 
 const T: usize = 64;
 const LOGLEN: usize = 3 * T + 4096;
 const FRAME: i32 = 32; // header-only frames: two fit into a term
-const NI: usize = 3;
 const NC: usize = 8; // recorded handler calls
 const REG: i64 = 9;
 const CORR: [i64; 4] = [11, 12, 13, 14];
 const NOBODY: usize = 9;
 
-/// One log: three terms and the meta data section, contiguous (LogBuffers::new needs one region), every term a
-/// separate <= 64 element member.
+/// One log: three 64-byte terms and the meta data section, contiguous (LogBuffers::new needs one region); every term is
+/// a separate member of at most 64 elements, so it stays field sensitive at the default setting.
 #[repr(C, align(16))]
 struct LogMem {
     t0: [u8; T],
@@ -429,67 +450,85 @@ impl LogMem {
     }
 }
 
+#[derive(Copy, Clone)]
 struct Mems {
-    l0: LogMem,
-    l1: LogMem,
-    l2: LogMem,
-    l3: LogMem,
-    c0: Mem<64>,
-    c1: Mem<64>,
-    c2: Mem<64>,
-    c3: Mem<64>,
+    log: [*mut u8; 4],
+    ctr: [*mut u8; 4],
+}
+
+/// four zeroed logs and four zeroed position counters, each its own local (its own root object for CBMC)
+macro_rules! mems {
+    ($m:ident) => {
+        let (mut l0, mut l1, mut l2, mut l3) = (LogMem::zeroed(), LogMem::zeroed(), LogMem::zeroed(), LogMem::zeroed());
+        let (mut c0, mut c1, mut c2, mut c3) = ([0u64; 8], [0u64; 8], [0u64; 8], [0u64; 8]);
+        let $m = Mems {
+            log: [&mut l0 as *mut LogMem as *mut u8, &mut l1 as *mut LogMem as *mut u8, &mut l2 as *mut LogMem as *mut u8, &mut l3 as *mut LogMem as *mut u8],
+            ctr: [c0.as_mut_ptr() as *mut u8, c1.as_mut_ptr() as *mut u8, c2.as_mut_ptr() as *mut u8, c3.as_mut_ptr() as *mut u8],
+        };
+    };
 }
 
 impl Mems {
-    fn zeroed() -> Mems {
-        Mems { l0: LogMem::zeroed(), l1: LogMem::zeroed(), l2: LogMem::zeroed(), l3: LogMem::zeroed(), c0: Mem::zeroed(), c1: Mem::zeroed(), c2: Mem::zeroed(), c3: Mem::zeroed() }
-    }
-    fn log(&mut self, i: usize) -> &mut LogMem {
-        match i {
-            0 => &mut self.l0,
-            1 => &mut self.l1,
-            2 => &mut self.l2,
-            _ => &mut self.l3,
-        }
-    }
-    fn ctr(&mut self, i: usize) -> &mut Mem<64> {
-        match i {
-            0 => &mut self.c0,
-            1 => &mut self.c1,
-            2 => &mut self.c2,
-            _ => &mut self.c3,
-        }
-    }
     /// subscriber position of image i as the counter holds it
     fn position(&self, i: usize) -> i64 {
-        let c = match i {
-            0 => &self.c0,
-            1 => &self.c1,
-            2 => &self.c2,
-            _ => &self.c3,
-        };
-        i64::from_le_bytes([c.0[0], c.0[1], c.0[2], c.0[3], c.0[4], c.0[5], c.0[6], c.0[7]])
+        unsafe { *(self.ctr[i] as *const i64) }
     }
-    fn base(&mut self, i: usize) -> usize {
-        self.log(i) as *mut LogMem as usize
+    fn base(&self, i: usize) -> usize {
+        self.log[i] as usize
+    }
+    fn bases(&self) -> [usize; 4] {
+        [self.base(0), self.base(1), self.base(2), self.base(3)]
+    }
+    fn term0(&self, i: usize) -> &mut [u8] {
+        unsafe { std::slice::from_raw_parts_mut(self.log[i], T) }
+    }
+    /// the two frame length words of image i (FRAME = committed, 0 = nothing there yet)
+    fn set_words(&self, i: usize, words: [i32; 2]) {
+        put_le(self.term0(i), 0, words[0].to_le_bytes());
+        put_le(self.term0(i), 32, words[1].to_le_bytes());
     }
 }
 
-fn err_handler(_e: AeronError) {}
+/// never called; forgets its argument so that the harness does not reference AeronError's (recursive) drop glue
+fn err_handler(e: AeronError) {
+    std::mem::forget(e)
+}
 
 fn empty_cstring() -> CString {
     unsafe { CString::from_vec_unchecked(Vec::new()) }
 }
 
-/// A real Image over log i: `words` are the two frame length words (FRAME = committed, 0 = nothing there yet).
-fn image(mem: &mut Mems, i: usize, words: [i32; 2], session: i32) -> Image {
-    let lg = mem.log(i);
-    put_frame(&mut lg.t0, 0, words[0], 0xC0, session);
-    put_frame(&mut lg.t0, 32, words[1], 0xC0, session);
-    let lb = unsafe { LogBuffers::new(lg as *mut LogMem as *mut u8, LOGLEN as isize, T as i32) };
-    let sp = UnsafeBufferPosition::new(mem.ctr(i).buf(), 0);
+/// A real Image over log i, two frame headers laid out at 0 and 32, length words still 0.
+fn image(mem: &Mems, i: usize, session: i32) -> Image {
+    put_frame(mem.term0(i), 0, 0, 0xC0, session);
+    put_frame(mem.term0(i), 32, 0, 0xC0, session);
+    let lb = unsafe { LogBuffers::new(mem.log[i], LOGLEN as isize, T as i32) };
+    let sp = UnsafeBufferPosition::new(AtomicBuffer::new(mem.ctr[i], 64), 0);
     Image::create(session, CORR[i], REG, empty_cstring(), &sp, Arc::new(lb), Box::new(err_handler as fn(AeronError)))
 }
+
+fn subscription() -> Subscription {
+    Subscription::new(dummy_conductor(), REG, empty_cstring(), STREAM, -1)
+}
+
+/// Harness scaffolding (see the section comment): make the subscription's image list be the `n` images at `images`.
+/// Capacity 0: the list is never reallocated by poll, and a later `add_image` / `remove_image` (which replace the list)
+/// must not hand harness memory to the allocator.
+#[allow(invalid_reference_casting)]
+fn inject(sub: &mut Subscription, images: *mut Image, n: usize) {
+    let list = sub.images() as *const Vec<Image> as *mut Vec<Image>;
+    unsafe { std::ptr::write(list, Vec::from_raw_parts(images, n, 0)) };
+}
+
+/// `split!(selector, |k| body, 0, 1, 2)`: the solver-chosen selector is case-split; `body` runs with a literal.
+macro_rules! split {
+    ($s:expr, $f:expr, $k:literal) => { $f($k) };
+    ($s:expr, $f:expr, $k:literal, $($rest:literal),+) => {
+        if $s == $k { $f($k) } else { split!($s, $f, $($rest),+) }
+    };
+}
+
+const WORDS3: [[i32; 2]; 4] = [[0, 0], [FRAME, 0], [FRAME, FRAME], [0, FRAME]];
 
 /// frames visible to a reader standing at the start of the term
 fn backlog(words: [i32; 2]) -> i64 {
@@ -504,28 +543,23 @@ fn backlog(words: [i32; 2]) -> i64 {
     }
 }
 
-fn subscription() -> Subscription {
-    Subscription::new(dummy_conductor(), REG, empty_cstring(), STREAM, -1)
-}
-
 /// What the fragment handler saw during the polls so far.
 struct Seen {
     bases: [usize; 4],
-    calls: usize,          // in the current poll call
-    per: [i64; 4],         // fragments of image i in the current poll call
-    taken: [i64; 4],       // fragments of image i over all calls
-    last: usize,           // image of the previous fragment in the current call
-    finished: [bool; 4],   // the current call has moved on from image i
-    revisited: bool,       // a fragment of an image arrived after the call had moved on from it
-    in_order: bool,        // every fragment was the next unconsumed frame of its image
-    stranger: bool,        // a fragment from a buffer that is none of the images
-    first: usize,          // image of the first fragment of the current call
-    order: [usize; NC],
+    calls: usize,        // in the current poll call
+    per: [i64; 4],       // fragments of image i in the current poll call
+    taken: [i64; 4],     // fragments of image i over all calls
+    last: usize,         // image of the previous fragment in the current call
+    finished: [bool; 4], // the current call has moved on from image i
+    revisited: bool,     // a fragment of an image arrived after the call had moved on from it
+    in_order: bool,      // every fragment was the next unconsumed frame of its image
+    stranger: bool,      // a fragment from a buffer that is none of the images
+    first: usize,        // image of the first fragment of the current call
 }
 
 impl Seen {
     fn new(bases: [usize; 4]) -> Seen {
-        Seen { bases, calls: 0, per: [0; 4], taken: [0; 4], last: NOBODY, finished: [false; 4], revisited: false, in_order: true, stranger: false, first: NOBODY, order: [NOBODY; NC] }
+        Seen { bases, calls: 0, per: [0; 4], taken: [0; 4], last: NOBODY, finished: [false; 4], revisited: false, in_order: true, stranger: false, first: NOBODY }
     }
     fn begin_call(&mut self) {
         self.calls = 0;
@@ -563,22 +597,19 @@ impl Seen {
             if self.first == NOBODY {
                 self.first = who;
             }
-            if self.calls < NC {
-                self.order[self.calls] = who;
-            }
         }
         self.calls += 1;
     }
 }
 
-/// The rotation walk of the property statement: start at image `start`, visit every image once in cyclic order, hand
-/// each the part of the limit that is left. Returns the fragments per image.
-fn reference(n: usize, start: usize, backlog: &[i64; 4], limit: i64) -> [i64; 4] {
+/// The rotation walk of the property statement over the image list `ids[..n]`: start at list position `start`, visit
+/// every image once in cyclic order, hand each the part of the limit that is left. Returns the fragments per image id.
+fn reference(n: usize, ids: &[usize; 4], start: usize, backlog: &[i64; 4], limit: i64) -> [i64; 4] {
     let mut out = [0i64; 4];
     let mut left = if limit > 0 { limit } else { 0 };
     let mut step = 0;
     while step < n {
-        let i = (start + step) % n;
+        let i = ids[(start + step) % n];
         let c = if backlog[i] < left { backlog[i] } else { left };
         out[i] = c;
         left -= c;
@@ -595,6 +626,7 @@ fn min64(a: i64, b: i64) -> i64 {
     }
 }
 
+#[derive(Copy, Clone)]
 struct PollOut {
     limit: i32,
     result: i32,
@@ -604,47 +636,32 @@ struct PollOut {
     rr: usize,
 }
 
-/// One poll call over n images from a symbolic rotation state: `warm` earlier calls with fragment limit 0 (they move
-/// the starting image and consume nothing), then the call under test with any i32 limit.
-fn poll_once(n: usize, words: [[i32; 2]; 3], controlled: bool) -> PollOut {
-    pretouch();
-    let mut mem = Mems::zeroed();
-    let sessions: [i32; 3] = kani::any();
-    let mut sub = subscription();
-    let mut bl = [0i64; 4];
-    let mut i = 0;
-    while i < n {
-        let img = image(&mut mem, i, words[i], sessions[i]);
-        std::mem::forget(sub.add_image(img));
-        bl[i] = backlog(words[i]);
-        i += 1;
-    }
-    assert!(sub.image_count() == n, "C20: every added image is in the image list");
-    let warm: usize = kani::any();
-    kani::assume(warm <= n);
+/// a poll with fragment limit 0: moves the starting image, consumes nothing
+fn idle_poll(sub: &mut Subscription) {
     let mut nothing = |_: &AtomicBuffer, _: Index, _: Index, _: &Header| {};
-    i = 0;
-    while i < warm {
-        let r = sub.poll(&mut nothing, 0);
-        assert!(r == 0, "C20: a poll with fragment limit 0 delivers nothing");
-        i += 1;
-    }
-    let limit: i32 = kani::any();
-    let mut seen = Seen::new([mem.base(0), mem.base(1), mem.base(2), mem.base(3)]);
-    seen.begin_call();
-    let result = if controlled {
-        sub.controlled_poll(
-            |b: &AtomicBuffer, off: Index, len: Index, h: &Header| {
-                seen.note(b, off, len, h);
-                Ok(ControlledPollAction::Continue)
-            },
-            limit,
-        )
-    } else {
-        let mut handler = |b: &AtomicBuffer, off: Index, len: Index, h: &Header| seen.note(b, off, len, h);
-        sub.poll(&mut handler, limit)
-    };
-    let total = bl[0] + bl[1] + bl[2];
+    let r = sub.poll(&mut nothing, 0);
+    assert!(r == 0, "C20: a poll with fragment limit 0 delivers nothing");
+}
+
+fn plain_poll(sub: &mut Subscription, seen: &mut Seen, limit: i32) -> i32 {
+    let mut handler = |b: &AtomicBuffer, off: Index, len: Index, h: &Header| seen.note(b, off, len, h);
+    sub.poll(&mut handler, limit)
+}
+
+fn controlled_poll(sub: &mut Subscription, seen: &mut Seen, limit: i32) -> i32 {
+    sub.controlled_poll(
+        |b: &AtomicBuffer, off: Index, len: Index, h: &Header| {
+            seen.note(b, off, len, h);
+            Ok(ControlledPollAction::Continue)
+        },
+        limit,
+    )
+}
+
+/// Everything one poll call must satisfy, given the image list `ids[..n]` (image ids in list order) and each image's
+/// backlog `bl` / fragments consumed before the call `before`.
+fn check_poll(n: usize, ids: &[usize; 4], mem: &Mems, seen: &Seen, bl: &[i64; 4], before: &[i64; 4], limit: i32, result: i32) -> bool {
+    let total = bl[0] + bl[1] + bl[2] + bl[3];
     let lim = if limit > 0 { limit as i64 } else { 0 };
     assert!(!seen.stranger, "C20: only fragments of the subscription's images are delivered");
     assert!(seen.calls as i64 == result as i64, "C20: the return value is the number of fragments delivered");
@@ -653,45 +670,172 @@ fn poll_once(n: usize, words: [[i32; 2]; 3], controlled: bool) -> PollOut {
     assert!(!seen.revisited, "C20: an image is polled at most once per call (its fragments are contiguous in the call)");
     assert!(seen.in_order, "C20: each image's fragments arrive in stream order, each exactly once");
     let mut matches_some_start = false;
-    let mut starved = false;
     let mut s = 0;
     while s < n {
-        let r = reference(n, s, &bl, limit as i64);
-        if r[0] == seen.per[0] && r[1] == seen.per[1] && r[2] == seen.per[2] {
+        let r = reference(n, ids, s, bl, limit as i64);
+        if r[0] == seen.per[0] && r[1] == seen.per[1] && r[2] == seen.per[2] && r[3] == seen.per[3] {
             matches_some_start = true;
         }
         s += 1;
     }
     assert!(matches_some_start, "C20: per-image counts are those of one cyclic walk handing each image the remaining limit");
-    i = 0;
-    while i < n {
-        assert!(mem.position(i) == FRAME as i64 * seen.per[i], "C20: each subscriber position advances by exactly the fragments delivered from that image");
+    let mut starved = false;
+    let mut i = 0;
+    while i < 4 {
+        assert!(mem.position(i) == FRAME as i64 * (before[i] + seen.per[i]), "C20: each subscriber position advances by exactly the fragments delivered from that image");
         assert!(seen.per[i] <= min64(bl[i], lim), "C20: an image yields at most what one poll of it with the limit can consume");
         starved = starved || (bl[i] > 0 && seen.per[i] == 0);
         i += 1;
     }
-    std::mem::forget(sub);
-    PollOut { limit, result, total_backlog: total, starved, first: seen.first, rr: warm }
+    starved
 }
 
-fn any_words() -> [[i32; 2]; 3] {
-    let present: [[bool; 2]; 3] = kani::any();
-    let mut w = [[0i32; 2]; 3];
+/// Leaf of the case split: `warm` earlier calls with fragment limit 0 (they move the starting image and consume
+/// nothing), backlog code `code` (base-3 digit i = frames committed in image i), then the call under test with any limit.
+fn poll_leaf(n: usize, sub: &mut Subscription, mem: &Mems, warm: usize, code: usize, do_poll: impl Fn(&mut Subscription, &mut Seen, i32) -> i32) -> PollOut {
+    let mut bl = [0i64; 4];
+    let mut c = code;
     let mut i = 0;
-    while i < 3 {
-        w[i][0] = if present[i][0] { FRAME } else { 0 };
-        w[i][1] = if present[i][1] { FRAME } else { 0 };
+    while i < n {
+        let words = WORDS3[c % 4];
+        mem.set_words(i, words);
+        bl[i] = backlog(words);
+        c /= 4;
         i += 1;
     }
-    w
+    i = 0;
+    while i < warm {
+        idle_poll(sub);
+        i += 1;
+    }
+    let limit: i32 = kani::any();
+    let mut seen = Seen::new(mem.bases());
+    seen.begin_call();
+    let result = do_poll(sub, &mut seen, limit);
+    let starved = check_poll(n, &[0, 1, 2, 3], mem, &seen, &bl, &[0; 4], limit, result);
+    PollOut { limit, result, total_backlog: bl[0] + bl[1] + bl[2] + bl[3], starved, first: seen.first, rr: warm }
 }
 
+macro_rules! poll_family {
+    ($name:ident, $n:literal, [$($img:literal),+], $kind:expr, [$($warm:literal),+], [$($code:literal),+]) => {
+        #[kani::proof]
+        fn $name() {
+            pretouch();
+            mems!(mem);
+            let sessions: [i32; 4] = kani::any();
+            let mut sub = subscription();
+            let mut images = ManuallyDrop::new([$(image(&mem, $img, sessions[$img])),+]);
+            inject(&mut sub, images.as_mut_ptr(), $n);
+            assert!(sub.image_count() == $n && !sub.is_closed() && sub.registration_id() == REG, "C20: harness subscription holds the injected images");
+            let warm: usize = kani::any();
+            let code: usize = kani::any();
+            kani::assume(warm <= $n);
+            let o = split!(warm, |w| split!(code, |c| poll_leaf($n, &mut sub, &mem, w, c, $kind), $($code),+), $($warm),+);
+            std::mem::forget(sub);
+            kani::cover!(o.starved && o.limit > 0, "[must] limit reached before all images polled");
+            kani::cover!(o.rr == $n && o.first == 0 && o.result > 0, "[must] wrap-around of the round-robin index: starting image back at the first");
+            kani::cover!(o.rr == $n - 1 && o.first == $n - 1 && o.result as i64 == 2 * $n, "[must] start at the last image, wrap to the first, everything drained");
+            kani::cover!(o.limit < 0 && o.total_backlog == 2 * $n, "[must] negative limit with data everywhere");
+            kani::cover!(o.limit == i32::MAX, "[must] largest limit");
+        }
+    };
+}
+
+// backlog codes: base-4 digit i selects image i's length words among none / one frame / two frames / gap (second frame
+// committed behind an uncommitted first one: nothing visible)
 // @verif tier=quick unwind=10
+poll_family!(c20_poll_two_images_any_backlog, 2, [0, 1], plain_poll, [0, 1, 2], [0, 1, 2, 3, 4, 5, 6, 7, 8, 9, 10, 11, 12, 13, 14, 15]);
+
+// PROBES (temporary)
+macro_rules! spin { ($name:ident) => { #[inline(never)] fn $name(w: i64) -> i64 { let mut k = 0; while k < w { k += 1; } k } }; }
+spin!(spin_raw);
+spin!(spin_ab);
+spin!(spin_lb);
+spin!(spin_arc);
+spin!(spin_img_len);
+spin!(spin_img_pos);
+spin!(spin_vol);
+spin!(spin_vecab);
+
+// @verif tier=off unwind=10
 #[kani::proof]
-fn c20_poll_two_images_any_backlog() {
-    let o = poll_once(2, any_words(), false);
-    kani::cover!(o.starved && o.limit > 0, "[must] limit reached before all images polled");
-    kani::cover!(o.rr == 2 && o.first == 0 && o.result > 0, "[must] wrap-around of the round-robin index: starting image back at the first");
-    kani::cover!(o.rr == 1 && o.first == 1 && o.result == 4, "[must] start at the second image, wrap to the first, everything drained");
-    kani::cover!(o.limit < 0 && o.total_backlog == 4, "[must] negative limit with data everywhere");
+fn c20_zz_probe_opacity() {
+    pretouch();
+    mems!(mem);
+    let mut img = image(&mem, 0, 5);
+    mem.set_words(0, [3, 3]);
+    let raw = unsafe { *(mem.log[0] as *const i32) } as i64;
+    spin_raw(raw);
+    let ab = AtomicBuffer::new(mem.log[0], 64);
+    spin_ab(ab.get::<i32>(0) as i64);
+    spin_vol(ab.get_volatile::<i32>(0) as i64);
+    let lb = unsafe { LogBuffers::new(mem.log[0], LOGLEN as isize, T as i32) };
+    spin_lb(lb.atomic_buffer(0).get::<i32>(0) as i64);
+    let arc = Arc::new(lb);
+    spin_arc(arc.atomic_buffer(0).get::<i32>(0) as i64);
+    let v: Vec<AtomicBuffer> = (0..3).map(|i| arc.atomic_buffer(i)).collect();
+    spin_vecab(v[0].get::<i32>(0) as i64);
+    spin_img_len((img.term_buffer_length() / 16) as i64);
+    spin_img_pos(img.position() + 3);
+    std::mem::forget(img);
+    std::mem::forget(arc);
+    std::mem::forget(v);
+}
+
+// @verif tier=off unwind=10
+#[kani::proof]
+fn c20_zz_probe_real_add() {
+    pretouch();
+    mems!(mem);
+    let mut sub = subscription();
+    std::mem::forget(sub.add_image(image(&mem, 0, 5)));
+    std::mem::forget(sub.add_image(image(&mem, 1, 6)));
+    mem.set_words(0, [FRAME, FRAME]);
+    mem.set_words(1, [FRAME, 0]);
+    let mut n = 0;
+    let mut h = |_: &AtomicBuffer, _: Index, _: Index, _: &Header| n += 1;
+    let r = sub.poll(&mut h, 5);
+    assert!(r == 3, "C20: probe");
+    std::mem::forget(sub);
+}
+
+// @verif tier=off unwind=10
+#[kani::proof]
+#[kani::stub(std::hash::RandomState::new, fixed_random_state)]
+#[kani::stub(<std::hash::DefaultHasher as std::hash::Hasher>::finish, fixed_finish)]
+fn c20_zz_probe_asm() {
+    pretouch();
+    let mut term = Mem::<256>::any();
+    put_frame(&mut term.0, 0, 64, 0x80, SID_A);
+    put_frame(&mut term.0, 64, 64, 0x00, SID_A);
+    put_frame(&mut term.0, 128, 39, 0x40, SID_A);
+    let tb = term.buf();
+    let mut got = Got::new(3, [tb.buffer() as usize, 0]);
+    let mut delegate = |b: &AtomicBuffer, off: Index, len: Index, h: &Header| got.note(b, off, len, h);
+    let mut asm = ManuallyDrop::new(FragmentAssembler::new(&mut delegate, None));
+    {
+        let mut handler = asm.handler();
+        let mut hdr = Header::new(TERM_ID, 256);
+        hdr.set_buffer(tb);
+        hdr.set_offset(0);
+        handler(&tb, 32, 32, &hdr);
+        hdr.set_offset(64);
+        handler(&tb, 96, 32, &hdr);
+        hdr.set_offset(128);
+        handler(&tb, 160, 7, &hdr);
+    }
+    assert!(got.calls == 1 && got.len[0] == 71, "C20: probe");
+}
+
+spin!(spin_map);
+// @verif tier=off unwind=10
+#[kani::proof]
+#[kani::stub(std::hash::RandomState::new, fixed_random_state)]
+#[kani::stub(<std::hash::DefaultHasher as std::hash::Hasher>::finish, fixed_finish)]
+fn c20_zz_probe_map() {
+    let mut m: std::collections::HashMap<i32, i32> = std::collections::HashMap::new();
+    m.insert(5, 3);
+    let v = match m.get(&5) { Some(v) => *v, None => 9 };
+    spin_map(v as i64);
+    std::mem::forget(m);
 }
